@@ -1275,8 +1275,19 @@ impl<'a, const C: usize, const R: usize, T: 'a + Copy + std::fmt::Debug> Layout<
     pub fn tick(&mut self) -> CustomEvent<'a, T> {
         let active_layer = self.current_layer() as u16;
         if let Some(chv2) = self.chords_v2.as_mut() {
-            self.queue.extend(chv2.tick_chv2(active_layer).drain(0..));
-            if let chord_action @ Some(_) = chv2.get_action_chv2() {
+            let mut drained = chv2.tick_chv2(active_layer);
+            let chord_action = chv2.get_action_chv2();
+            for qd in drained.drain(0..) {
+                // Same overflow handling as in `event`: never silently drop a queued event,
+                // a lost release is a stuck key.
+                if let Some(overflow) = self.queue.push_back(qd) {
+                    for i in -1..(EXTRA_WAITING_LEN as i8) {
+                        self.waiting_into_hold(i);
+                    }
+                    self.dequeue(overflow);
+                }
+            }
+            if let chord_action @ Some(_) = chord_action {
                 self.action_queue.push_back(chord_action);
                 self.oneshot.pause_input_processing_ticks =
                     self.oneshot.pause_input_processing_delay;
